@@ -234,7 +234,10 @@ def run_property(prop, tier, seed):
                              obligations=sum(1 for ob in ctx.obls if ob.fn == k and ob.expect == "unsat"),
                              note=i.get("detail", "")))
     for k in trusted:
-        fn_table.append(dict(function=k, tier="assumed-glue", note="contract assumed (trusted=True); checked at run time only"))
+        cc = dsl.CONTRACTS[k]
+        fn_table.append(dict(function=k, tier="bounded" if cc.bounded else "assumed-glue",
+                             note=("run-time contract on generated inputs (never counted as proved)" if cc.bounded else
+                                   "contract assumed at call sites (trusted=True)") + ((": " + cc.notes) if cc.notes else "")))
     assumptions = sorted(ctx.used_lib) + [
         "floats are modelled as mathematical reals (no rounding, no inf); NaN only in columns declared nullable",
         "numpy int64 coordinates do not overflow",
@@ -252,7 +255,10 @@ def run_property(prop, tier, seed):
         for s in f["samples"][:1]:
             samples.append(dict(standin_function=f["function"], inputs=s))
     all_ok = not failed and not unsupported
-    level = "proof" if all_ok else "other"
+    has_bounded = any(dsl.CONTRACTS[k].bounded for k in trusted)
+    # `proof` only when every contract of the property is in the deductive tier and everything discharged;
+    # a property that (also) rests on run-time contracts is reported as `other`
+    level = "proof" if (all_ok and not has_bounded and n_obl > 0) else "other"
     cov = dict(
         obligations=n_obl, discharged=discharged,
         checker_cmd="./check %s --tier %s  (pyvc: python3-vt + z3 %s; stand-in/replay: %s)" % (
@@ -281,8 +287,11 @@ def run_property(prop, tier, seed):
         rule="obligations: one per (function, kind, clause, path) generated from the real AST; stand-in cases: seeded "
              "generator per contract, distinct by JSON of the inputs, non-trivial when a table/vector argument is non-empty",
         samples=samples,
-        explanation="deductive obligations over the real AST discharged by SMT (counted in discharged) plus run-time "
-                    "checks of the same contracts on generated inputs (bounded, never counted as proved)",
+        explanation=("deductive tier: %d obligations generated from the real AST of %d function(s) and %d lemma(s), %d "
+                     "discharged by SMT; bounded tier: %d run-time contract(s) evaluated on %d generated cases (bounded "
+                     "stand-in, never counted as proved)" % (
+                         n_obl, len(keys), len(lemmas), discharged, sum(1 for k in trusted if dsl.CONTRACTS[k].bounded),
+                         sum(f["evaluations"] for f in si["functions"]))),
         exhaustive=False,
     )
     ev = dict(property_id=prop, tier=tier, seed=seed, level=level, coverage=cov, assumptions=assumptions,
